@@ -4,6 +4,7 @@
    vectors of any dimension and, for the closed forms, over all gradient histories. *)
 From Coq Require Import ZArith QArith Qabs List Bool.
 From Precond Require Import C05.Model C05.Proofs.
+From Precond Require C05.Ref C05.RefLink.
 Import ListNotations.
 Open Scope Q_scope.
 
@@ -160,3 +161,23 @@ Theorem graft_step_tearfree_rmsprop : forall nrm rsq, (forall a b, a == b -> rsq
   nth k g 0 * rsq (acc_closed (fst (tf_w b)) (snd (tf_w b)) (coord_hist nrm false k (hist ++ [g])) + e).
 Proof. exact tf_rms_step_closed_l. Qed.
 Print Assumptions graft_step_tearfree_rmsprop.
+
+(* tearfree/grafting.py maybe_graft as written in the source (C05.Ref: translated on every run and
+   re-proved equal, GenEq obligation; the Euclidean norm is the oracle [nrm]) is the model's
+   tf_update for every norm oracle, step, start step and pair of equally long vectors; a shape
+   mismatch is rejected and a skipped (masked) leaf gets the graft step whatever the shapes. *)
+Theorem c05_tf_source_is_model : forall (nrm : list Q -> Q) masked count start (s base : list Q),
+  length s = length base ->
+  C05.Ref.tf_maybe_graft nrm masked count start s base = Some (tf_update nrm masked count start s base).
+Proof. exact C05.RefLink.maybe_graft_is_model. Qed.
+Print Assumptions c05_tf_source_is_model.
+
+Theorem c05_tf_source_masked : forall (nrm : list Q -> Q) count start (s base : list Q),
+  C05.Ref.tf_maybe_graft nrm true count start s base = Some s.
+Proof. exact C05.RefLink.maybe_graft_masked. Qed.
+Print Assumptions c05_tf_source_masked.
+
+Theorem c05_tf_source_shape_mismatch : forall (nrm : list Q -> Q) count start (s base : list Q),
+  length s <> length base -> C05.Ref.tf_maybe_graft nrm false count start s base = None.
+Proof. exact C05.RefLink.maybe_graft_shape_mismatch. Qed.
+Print Assumptions c05_tf_source_shape_mismatch.
